@@ -27,7 +27,7 @@ type C16Case struct {
 	Probes []C16Probe  `json:"probes"`
 }
 
-var c16Ops = []string{"get", "get", "insert", "insert", "inserthigh", "insertlow", "insertlow", "update", "delete", "delete", "deletetop", "deletetop", "delabsent", "clone", "mutclone", "mutpersist", "getwrongtype", "getseq", "getseq", "openlegacy", "openbad", "cursor", "min", "max", "ceil", "forward", "backward", "seekfirst"}
+var c16Ops = []string{"get", "get", "insert", "insert", "inserthigh", "insertlow", "insertlow", "update", "delete", "delete", "deletetop", "deletetop", "delabsent", "clone", "mutclone", "mutpersist", "getwrongtype", "getseq", "getseq", "openlegacy", "opentaller", "openbad", "cursor", "min", "max", "ceil", "forward", "backward", "seekfirst"}
 
 func genC16(t *rapid.T, tier string) C16Case {
 	c := C16Case{Cfg: core.GenConfig(t, tier, core.GenOpts{Caches: []string{"none"}, Vals: []string{core.VInt, core.VString, core.VBytes, core.VPtr, core.VStruct, core.VNil, core.VTags}, BigOneIn: 8})}
@@ -154,7 +154,13 @@ func runC16(c C16Case, o *run.Obs) error {
 		switch pr.Op {
 		case "get":
 			var v interface{}
-			err = count(fmt.Sprintf("Get(%v)", key), h+1, func() error { _, e := lt.M.Get(core.Ctx, key, &v); return e })
+			var dst interface{} = &v
+			if c.Cfg.Val == core.VNil {
+				// set-style use: every stored value is nil; the caller hands in a typed destination anyway
+				var typed string
+				dst = &typed
+			}
+			err = count(fmt.Sprintf("Get(%v)", key), h+1, func() error { _, e := lt.M.Get(core.Ctx, key, dst); return e })
 		case "insert", "update", "inserthigh", "insertlow":
 			k2 := key
 			if pr.Op == "update" {
@@ -281,9 +287,28 @@ func runC16(c C16Case, o *run.Obs) error {
 					kj++ // a neighbour of the previous key: often in the same node's range without being in that node
 				}
 				var v interface{}
+				var dst interface{} = &v
+				if c.Cfg.Val == core.VNil && j%2 == 0 {
+					var typed int
+					dst = &typed
+				}
 				kk := w.Pool[kj]
-				err = count(fmt.Sprintf("Get(%v) as lookup #%d on one opened handle", kk, j+1), h+1, func() error { _, e := lt.M.Get(core.Ctx, kk, &v); return e })
+				err = count(fmt.Sprintf("Get(%v) as lookup #%d on one opened handle", kk, j+1), h+1, func() error { _, e := lt.M.Get(core.Ctx, kk, dst); return e })
 			}
+		case "opentaller":
+			// a version as releases before the symmetric shrink rule could leave it: a key-less top node whose single child is
+			// this version's top node, recorded one level taller. Opening it (accepted or refused) reads at most its top node.
+			if sr.Root.Link == nil || (c.Cfg.Format == ref.FormatV1 && c.Cfg.Marshaler != "json") {
+				continue
+			}
+			top := c.Cfg.EncodeNode(&ref.Node{Keys: [][]byte{}, Values: [][]byte{}, Links: []string{*sr.Root.Link}})
+			name := ref.NodeName(top)
+			w.Store.Put(name, top)
+			taller := *sr
+			taller.Root.Link = &name
+			taller.Root.Height = sr.Root.Height + 1
+			w.Store.TrimLog()
+			err = count("LoadMast of a version with a key-less top node (one level taller than canonical)", 1, func() error { w.Load(&taller, nil, nil, false); return nil })
 		case "openlegacy":
 			// a root record as written before the node-format field existed (or one that went through JSON)
 			viaJSON := true
